@@ -49,7 +49,9 @@ let run_set (c : cur) (impl : string list) : string * string =
     | "scr" -> FromScripts (rep (count c) (fun () -> rep (count c) (fun () -> bytes_tok c)))
     | _ -> failwith "init" in
   let ops = rep (count c) (fun () -> let s = next c in
-    match s.[0] with 'a' -> op_add (bytes_of_hex (after s)) | 'c' -> op_contains (bytes_of_hex (after s)) | _ -> failwith "op") in
+    (* a<elem> or a<wire>,<elem>: the model identifies the element by its canonical bytes (the last part) *)
+    let canon = bytes_of_hex (List.hd (List.rev (String.split_on_char ',' (after s)))) in
+    match s.[0] with 'a' -> op_add canon | 'c' -> op_contains canon | _ -> failwith "op") in
   let m = match set_case k init ops with
     | Ok o -> Printf.sprintf "ok b=%s items=%s bytes=%s json=%s" (bits o.o_bools) (hexs o.o_items) (hex_of_bytes o.o_bytes) (hex_of_bytes o.o_json_bytes)
     | Err -> "err" | Panic -> "panic" | OutOfFuel -> "outoffuel" in
